@@ -46,7 +46,7 @@
 EXTENDS TranslateSrc, Json, IOUtils
 
 CONSTANTS AsImplemented,   \* model the pinned code's deviations
-          SourceSet,       \* which sources to enumerate: "patterns", "faults", "perms", "alias", "all"
+          SourceSet,       \* which sources to enumerate: "patterns", "faults", "perms", "faultperms", "alias", "all"
           PermAllUpTo      \* sources up to this length are permuted in every way
 
 NS == INSTANCE NatSort WITH Alphabet <- {}, MaxLen <- 0, a <- <<>>, b <- <<>>, c <- <<>>, stage <- 0
@@ -137,6 +137,7 @@ AllSources ==
   CASE SourceSet = "patterns" -> PatternSet
     [] SourceSet = "faults"   -> UNION {RefFaults(s) \cup DupFaults(s) \cup ClashFaults(s) : s \in PatternSet}
     [] SourceSet = "perms"    -> UNION {Perms(s) : s \in PatternSet}
+    [] SourceSet = "faultperms" -> UNION {UNION {RefFaults(t) \cup DupFaults(t) \cup ClashFaults(t) : t \in Perms(s)} : s \in {u \in PatternSet : Len(u) <= 5}}
     [] SourceSet = "alias"    -> {AliasPatterns[k] : k \in 1..Len(AliasPatterns)}
                                   \cup UNION {RefFaults(AliasPatterns[k]) : k \in 1..Len(AliasPatterns)}
     [] SourceSet = "all"      -> PatternSet \cup UNION {RefFaults(s) \cup DupFaults(s) \cup ClashFaults(s) : s \in PatternSet}
